@@ -8,6 +8,7 @@ diffed against the implementation on every run).
 -/
 import FendModel.Proofs.IntFns
 import FendModel.Proofs.BigUintShift
+import FendModel.Proofs.BigUintBitwise
 
 namespace Fend.C10
 open Fend Fend.BigUint
@@ -22,6 +23,11 @@ theorem shl1_exact (a : BigUint) (ha : a.WF) (hne : a.limbs ≠ []) :
 
 theorem shr1_exact (a : BigUint) (ha : a.WF) : val a.rshift = val a / 2 ∧ a.rshift.WF :=
   rshift_val a ha
+
+/-- bitwise `&`, `|`, `xor` on limb vectors of any two lengths are the bitwise operations on the values -/
+theorem and_exact (a b r : BigUint) (ha : a.WF) (hb : b.WF) (h : bitwiseAnd a b = .ok r) : val r = val a &&& val b := and_val a b r ha hb h
+theorem or_exact (a b r : BigUint) (ha : a.WF) (hb : b.WF) (h : bitwiseOr a b = .ok r) : val r = val a ||| val b := or_val a b r ha hb h
+theorem xor_exact (a b r : BigUint) (ha : a.WF) (hb : b.WF) (h : bitwiseXor a b = .ok r) : val r = val a ^^^ val b := xor_val a b r ha hb h
 
 /-- floor: with `|x| = q + r/den`, the signed result `z` satisfies `z ≤ x < z + 1` -/
 theorem floor_decision (neg : Bool) (q r den : Nat) (hr : r < den) :
